@@ -349,6 +349,7 @@ def ris_rule(ctx, w, S, R):
 def run(ctx, w, embedded=False):
     _run(ctx, w, embedded)
     ris_rule(ctx, w, shared.screen(w), shared.roles(w))
+    shared.mode_rule(ctx, w, shared.screen(w), shared.roles(w), "S8")
     if not embedded:
         from rules import c03
         shared.embed(ctx, w, c03.dispatch_rules)
